@@ -552,6 +552,65 @@ r1_stateless.helper_aware = True
 
 
 
+def r2_deprecated_bounds(program, folder, rep):
+    """The bounds the deprecated float_to_fix clips to, folded for every
+    format validate_fp_params admits: -(2 ** (n_int - n_frac)) (0 unsigned)
+    and (2 ** n_int - 1) / 2 ** n_frac.  A lower bound that is too low lets
+    inputs below the range through the clip, and the two's-complement step
+    wraps them instead of saturating."""
+    from ..constfold import FoldError
+    try:
+        fn = program.get(MOD + ":validate_fp_params")
+    except AnalysisError:
+        raise AnalysisError("validate_fp_params not found: the bounds of "
+                            "the deprecated converters are not read")
+    inst = qual(fn)
+    ps = formals(fn)
+    if len(ps) != 3:
+        raise AnalysisError("validate_fp_params: signature")
+    bad_lo = bad_hi = None
+    n = 0
+    for b in range(1, 65):
+        for sg in (True, False):
+            n_int = b - 1 if sg else b
+            for nf in range(0, n_int + 1):
+                try:
+                    env = fold_body(folder, fn, {ps[0]: sg, ps[1]: b,
+                                                 ps[2]: nf})
+                except FoldError as e:
+                    raise AnalysisError("validate_fp_params does not fold: "
+                                        "%s" % e)
+                ex = env.get("<exit>")
+                if not (isinstance(ex, tuple) and ex[0] == "ret" and
+                        isinstance(ex[1], tuple) and len(ex[1]) == 2) or \
+                        any(isinstance(v, (FoldErrorValue, Opaque))
+                            for v in ex[1]):
+                    raise AnalysisError("validate_fp_params: what it "
+                                        "returns for (%s, %d, %d) does not "
+                                        "fold to a pair" % (sg, b, nf))
+                lo, hi = ex[1]
+                n += 1
+                wlo = -(2 ** (n_int - nf)) if sg else 0
+                whi = (2 ** n_int - 1) / float(2 ** nf)
+                if lo != wlo and bad_lo is None:
+                    bad_lo = (sg, b, nf, lo, wlo)
+                if abs(hi - whi) > abs(whi) * 2.0 ** -50 and bad_hi is None:
+                    bad_hi = (sg, b, nf, hi, whi)
+    rep.check(bad_lo is None, "C16-R2", inst, "the lower clip bound is "
+              "-(2 ** (n_int - n_frac)), 0 unsigned, for all %d formats" % n,
+              construct="deprecated lower bound", node=fn, positive=True,
+              fail="for signed=%s, n_bits=%d, n_frac=%d the lower clip "
+                   "bound folds to %r, the format's lowest value is %r: "
+                   "inputs between the two are not saturated, and the "
+                   "two's-complement step wraps them" % (bad_lo or (0,) * 5))
+    rep.check(bad_hi is None, "C16-R2", inst, "the upper clip bound is "
+              "(2 ** n_int - 1) / 2 ** n_frac for all %d formats" % n,
+              construct="deprecated upper bound", node=fn, positive=True,
+              fail="for signed=%s, n_bits=%d, n_frac=%d the upper clip "
+                   "bound folds to %r, the format's highest value is %r"
+                   % (bad_hi or (0,) * 5))
+
+
 def r2_bounds_on_scaled(program, rep):
     """In the array converter, whatever is compared with or clipped against
     the integer bounds (self.min_value / self.max_value) is the *scaled*
@@ -612,6 +671,7 @@ def check(program, rep):
     rep.guard("C16-R3", r3_representable, program, folder, rep, widths, fl, n_bits)
     rep.guard("C16-R4", r4_inverse, program, rep)
     rep.guard("C16-R2", r2_bounds_on_scaled, program, rep)
+    rep.guard("C16-R2", r2_deprecated_bounds, program, folder, rep)
     # the signed flag selects the clip bounds, the dtype and the sign
     # handling: each reader takes it the same way (FALSY, falsy.py)
     from .. import falsy
